@@ -526,6 +526,17 @@ def rule_wnaf_exp(fx, rep):
             I.fork_inlined = True
             I.binop_hook = hook
             I.propagate_hooks = True
+
+            def sw_hook(fr, t, dv, pth):
+                # `match n { 0 => .., .. }` on a digit of known sign class
+                if isinstance(dv, Digit):
+                    zero_edges = [bb for v_, bb in t['targets'] if v_ == 0]
+                    if dv.sign == 0 and zero_edges:
+                        return zero_edges[0]
+                    if dv.sign != 0 and all(v_ == 0 for v_, _bb in t['targets']):
+                        return t['otherwise']
+                return None
+            I.switch_hook = sw_hook
             # table lookups with HalfIdx: done through Frame projection -> patch: supply the table as a dict-like Agg
             table = TableContract()
             try:
